@@ -179,6 +179,9 @@ CXX = ["g++", "-std=c++17", "-O1", "-g", "-fno-access-control", "-Wno-invalid-of
 
 def build_client(name, extra_flags=(), tag="", tap=False):
     """returns (path or None, compiler output)"""
+    if extra_flags and not tag:
+        # one cache entry per flag set (e.g. a sanitizer build of the same client next to the plain one)
+        tag = "-f" + hashlib.sha256(" ".join(extra_flags).encode()).hexdigest()[:8]
     if tap:
         extra_flags = tuple(extra_flags) + ("-fsanitize=thread",)
         tag = tag + "-tap"
@@ -421,18 +424,38 @@ def coverage_check(cname, c, seed):
         missing = []
         total = 0
         hit = 0
+        inst_total = 0
+        inst_miss = 0
         for h in hdrs:
             want = os.path.join(REPO, h).replace("/", "#") + ".gcov"
             path = os.path.join(d, want)
             if not os.path.exists(path):
                 missing.append("%s: no coverage data (header not compiled into the client?)" % h)
                 continue
+            # gcov prints, for a line of a template, first the count summed over all instantiations and then one block
+            # per instantiation (between lines of dashes, headed by the instantiation's name).  A source line counts as
+            # executed when SOME instantiation executed it (the summed count); the per-instantiation blocks are only
+            # tallied for the evidence (inst_lines / inst_lines_unexecuted).
+            in_inst = False
+            after_dash = False
             for l in open(path, errors="replace"):
+                if l.startswith("------------------"):
+                    after_dash = True
+                    continue
                 parts = l.split(":", 2)
-                if len(parts) < 3:
+                regular = len(parts) >= 3 and re.match(r"^\s*([-#=]+|\d+\*?)$", parts[0]) is not None
+                if after_dash:
+                    in_inst = not regular
+                    after_dash = False
+                if not regular:
                     continue
                 cnt, ln, text = parts[0].strip(), parts[1].strip(), parts[2].rstrip("\n")
                 if cnt == "-" or ln == "0":
+                    continue
+                if in_inst:
+                    inst_total += 1
+                    if cnt in ("#####", "=====") or cnt.rstrip("*") == "0":
+                        inst_miss += 1
                     continue
                 total += 1
                 if cnt == "=====" and text.strip() in ("}", "};"):
@@ -451,6 +474,7 @@ def coverage_check(cname, c, seed):
         missing += imiss
         summary = dict(headers=hdrs, lines_instrumented=total, lines_executed=hit, lines_missing=len(missing) - len(imiss),
                        member_functions=nmem, members_never_instantiated=len(imiss),
+                       inst_lines=inst_total, inst_lines_unexecuted=inst_miss,
                        runs=ndirected * nd + nr + nr // 2)
         json.dump(dict(key=key, summary=summary, missing=missing), open(res_file, "w"))
         for f in os.listdir(d):
@@ -540,6 +564,81 @@ def explore(prop, tier, seed, comp_names, t0):
     return stats, problems
 
 
+def run_failures(c, r):
+    """property-level failures of one parsed run (independent of the Lean verdict): list of strings"""
+    out = []
+    if r["status"] in ("crash", "incomplete"):
+        out.append("crash")
+        return out
+    if r["status"].startswith("deadlock") or r["status"] == "steplimit":
+        out.append(r["status"].split(":")[0])
+    out += r["fails"]
+    if c.get("oracle") is not None:
+        why = c["oracle"](r)
+        if why:
+            out.append(why)
+    return out
+
+
+def signature(text):
+    return re.sub(r"\d+", "N", text.split("\n")[0])[:80]
+
+
+def shrink(c, exe, run, what, budget_s=20):
+    """delta-debugging of a failing script (only for components whose every op sequence is a valid, terminating script:
+    c['shrinkable']).  A candidate is kept when some schedule of it fails with the same signature.  Returns a run dict."""
+    if not c.get("shrinkable") or not run or not run.get("script") or run["script"] == "?":
+        return run
+    sig = signature(what)
+    if sig.startswith(("deadlock", "steplimit")):
+        return run
+    t_end = time.time() + budget_s
+    best = run
+    parts = run["script"].split(";")
+    cfg, threads = parts[0], [[o for o in p.split(",") if o] for p in parts[1:]]
+
+    def attempt(ths):
+        ths = [t for t in ths if t]
+        if not ths:
+            return None
+        text = run_client(exe, ["--script", ";".join([cfg] + [",".join(t) for t in ths]), "--runs", "24",
+                                "--seed", str(run.get("seed") or 1)], 24, timeout=60)
+        for r in parse_runs(text):
+            if any(signature(f) == sig for f in run_failures(c, r)):
+                return r
+        return None
+
+    changed = True
+    while changed and time.time() < t_end:
+        changed = False
+        # drop whole threads, then halves, then single ops
+        for i in range(len(threads)):
+            cand = threads[:i] + threads[i + 1:]
+            r = attempt(cand)
+            if r:
+                threads, best, changed = [t for t in cand if t], r, True
+                break
+        if changed:
+            continue
+        for i in range(len(threads)):
+            n = len(threads[i])
+            chunk = max(1, n // 2)
+            while chunk >= 1 and not changed and time.time() < t_end:
+                j = 0
+                while j < len(threads[i]) and time.time() < t_end:
+                    cand = [list(t) for t in threads]
+                    del cand[i][j:j + chunk]
+                    r = attempt(cand)
+                    if r:
+                        threads, best, changed = [t for t in cand if t], r, True
+                        break
+                    j += chunk
+                chunk //= 2
+            if changed:
+                break
+    return best
+
+
 def run_check(prop, tier, seed):
     t0 = time.time()
     spec = PROPS[prop]
@@ -581,6 +680,19 @@ def run_check(prop, tier, seed):
     stats, problems = ({"components": {}}, [])
     if ok:
         stats, problems = explore(prop, tier, seed, spec["components"], t0)
+        if tier == "thorough":
+            # further independent seeds (fresh random scripts and schedules); stop at the first problem
+            for extra_seed in (seed + 1000, seed + 2000):
+                if problems or time.time() - t0 > 2400:
+                    break
+                s2, p2 = explore(prop, tier, extra_seed, spec["components"], t0)
+                problems += p2
+                for cname, cs2 in s2["components"].items():
+                    cs = stats["components"].setdefault(cname, cs2)
+                    if cs is not cs2:
+                        for k in ("runs", "events", "accepted", "rejected", "distinct_scripts", "distinct_traces", "deadlocks", "steplimits"):
+                            cs[k] = cs.get(k, 0) + cs2.get(k, 0)
+            stats["seeds"] = [seed, seed + 1000, seed + 2000]
     # 5. classify
     kf = known_findings()
     known_hits = []
@@ -600,9 +712,16 @@ def run_check(prop, tier, seed):
             continue
         reported.add(sig)
         r = p["run"] or {}
+        orig_script = r.get("script")
+        cc = COMPONENTS.get(p["component"], {})
+        if cc.get("shrinkable") and p["run"]:
+            exe, _ = build_client(cc["client"], tuple(cc.get("flags", ())), tap=cc.get("tap", False))
+            if exe:
+                r = shrink(cc, exe, p["run"], p["detail"])
         path = write_replay(prop, dict(property=prop, kind="failing-input", component=p["component"], what=p["detail"],
                                        script=r.get("script"), seed=r.get("seed"), strategy=r.get("strat"),
                                        decisions=r.get("decisions"), trace=r.get("trace"), model_verdict=r.get("verdict"),
+                                       original_script=orig_script if orig_script != r.get("script") else None,
                                        lean_problem=lean_problem))
         violations.append((path, True, p["detail"].split("\n")[0][:200]))
         if len(violations) >= 3:
@@ -656,6 +775,7 @@ def run_check(prop, tier, seed):
             components=stats["components"],
             samples=[dict(component=k, script=v["sample"][0], trace_head=v["sample"][1]) for k, v in stats["components"].items() if v.get("sample")]
             or [dict(theorem=n) for n in names[:3]],
+            seeds=stats.get("seeds", [seed]),
             model_stage=spec.get("stage", "A"),
             partial_clauses=spec.get("partial", []),
         ),
